@@ -25,6 +25,17 @@ def corpus_specs(ctx):
     s["components"]["headers"] = {"X-Rate": {"schema": {"type": "integer"}}}
     s["components"]["schemas"]["U"] = {"oneOf": [{"$ref": "#/components/schemas/Pet"}, {"$ref": "#/components/schemas/Err"}]}
     s["paths"]["/u"] = {"get": {"operationId": "getU", "responses": {"200": {"description": "ok", "content": {"application/json": {"schema": {"$ref": "#/components/schemas/U"}}}}}}}
+    # a discriminated union (tag dispatch is wire behaviour, helpers are not)
+    for n, tag in (("Circle", "circle"), ("Square", "square")):
+        s["components"]["schemas"][n] = {"type": "object", "required": ["kind"], "properties": {"kind": {"type": "string", "const": tag}, "size": {"type": "integer"}}}
+    s["components"]["schemas"]["Shape"] = {"oneOf": [{"$ref": "#/components/schemas/Circle"}, {"$ref": "#/components/schemas/Square"}],
+                                            "discriminator": {"propertyName": "kind", "mapping": {"circle": "#/components/schemas/Circle", "square": "#/components/schemas/Square"}}}
+    s["paths"]["/shape"] = {"get": {"operationId": "getShape", "responses": {"200": {"description": "ok", "content": {"application/json": {"schema": {"$ref": "#/components/schemas/Shape"}}}}}}}
+    # component headers next to the ones operations use, also with names that map to one constant
+    s["components"]["parameters"] = {"LegacyTrace": {"name": "X_Trace_Id", "in": "header", "required": True, "schema": {"type": "string"}},
+                                      "Trace": {"name": "X-Trace-Id", "in": "header", "schema": {"type": "string"}},
+                                      "ReqId": {"name": "X-Request-Id", "in": "header", "schema": {"type": "string"}}}
+    s["paths"]["/u"]["get"]["parameters"] = [{"$ref": "#/components/parameters/LegacyTrace"}]
     out.append(("gen_ops", s))
     return out
 
